@@ -11786,7 +11786,18 @@ func ruleTxStoredAtBlockIndex(c *Ctx) {
 			continue
 		}
 		f := c.P.NewFuncCFG(fd)
-		for _, s := range f.CallSites("pkg/core/dao.(*Simple).StoreAsTransaction") {
+		// call sites inside function literals count (storeBlock writes the records in a goroutine)
+		var calls []*ast.CallExpr
+		ast.Inspect(fd.Decl.Body, func(x ast.Node) bool {
+			if ce, ok := x.(*ast.CallExpr); ok {
+				if fn := calleeFunc(f.Info, ce); fn != nil && FuncKey(fn) == "pkg/core/dao.(*Simple).StoreAsTransaction" {
+					calls = append(calls, ce)
+				}
+			}
+			return true
+		})
+		for _, call := range calls {
+			s := struct{ call *ast.CallExpr }{call}
 			if len(s.call.Args) < 2 {
 				continue
 			}
@@ -11843,6 +11854,14 @@ func ruleRefusedLeavesRing(c *Ctx) {
 				case *ast.AssignStmt:
 					for li, l := range y.Lhs {
 						if ix, ok := ast.Unparen(l).(*ast.IndexExpr); ok && strings.HasSuffix(types.ExprString(ix.X), ".queue") && li < len(y.Rhs) && strings.HasSuffix(types.ExprString(y.Rhs[li]), "nilQ") {
+							clears = append(clears, site{b, i, nd, nil})
+						}
+					}
+				case *ast.BinaryExpr:
+					// the test "is the slot still held by this element" that guards the emptying (a newer element may
+					// have taken the slot over): reaching the test is reaching the decision to empty
+					if y.Op == token.EQL {
+						if ix, ok := ast.Unparen(y.X).(*ast.IndexExpr); ok && strings.HasSuffix(types.ExprString(ix.X), ".queue") {
 							clears = append(clears, site{b, i, nd, nil})
 						}
 					}
